@@ -345,7 +345,7 @@ func (c *Ctx) Par(n int, fn func(i int)) (completed bool) {
 			defer wg.Done()
 			defer func() {
 				if r := recover(); r != nil {
-					Infra("panic escaped a check worker: %v\n%s", r, debug.Stack())
+					c.escaped("a check worker", r, debug.Stack())
 				}
 			}()
 			for {
@@ -572,10 +572,53 @@ func Main(spec Spec) {
 	finish(c)
 }
 
+// escaped handles a panic that a check did not catch. If it was raised in the
+// code under test (the innermost frame that is not the Go runtime belongs to
+// the repository, not to the scheduler shim) it is the code that failed where
+// the harness expected no failure: reported as a violation. On the unchanged
+// tree this does not happen (the check would not pass); it matters for changed
+// trees, where an unexpected exception or crash in a set-up step must not look
+// like a tooling problem. Anything else is an infrastructure error.
+func (c *Ctx) escaped(where string, r any, stack []byte) {
+	frame := panicFrame(stack)
+	if strings.HasPrefix(frame, "github.com/apmckinlay/gsuneido/") && !strings.Contains(frame, "/verifshim/") {
+		if i := strings.Index(frame, "("); i > 0 && !strings.HasPrefix(frame[i:], "(*") {
+			frame = frame[:i]
+		}
+		c.Fail("", map[string]string{"escaped_panic": fmt.Sprint(r), "frame": frame},
+			"the code under test panicked where the harness expects no failure (%s): %v [in %s]", where, r, frame)
+		return
+	}
+	Infra("panic escaped %s: %v\n%s", where, r, stack)
+}
+
+// panicFrame returns the function line of the innermost frame, below the last
+// panic( line of a stack dump, that is not part of the Go runtime.
+func panicFrame(stack []byte) string {
+	lines := strings.Split(string(stack), "\n")
+	last := -1
+	for i, l := range lines {
+		if strings.HasPrefix(l, "panic(") {
+			last = i
+		}
+	}
+	for i := last + 1; last >= 0 && i < len(lines); i++ {
+		l := lines[i]
+		if strings.HasPrefix(l, "\t") || l == "" {
+			continue
+		}
+		if strings.HasPrefix(l, "runtime.") || strings.HasPrefix(l, "panic(") {
+			continue
+		}
+		return l
+	}
+	return ""
+}
+
 func runGuarded(c *Ctx) {
 	defer func() {
 		if r := recover(); r != nil {
-			Infra("panic escaped check %s: %v\n%s", c.Spec.ID, r, debug.Stack())
+			c.escaped("check "+c.Spec.ID, r, debug.Stack())
 		}
 	}()
 	c.Spec.Run(c)
